@@ -48,8 +48,8 @@ def option_values(seed_value):
         "protocol_version": rnd.choice(["1.5", "2.0", "2.1", "2.2", "2.0.0", "2.3"]),
         "baud": rnd.choice([9600, 38400, 57600]),
         "port": rnd.choice([5004, 8888, 1]),
-        "timeout": rnd.choice([0.5, 2, 3.5]),
-        "reconnect_timeout": rnd.choice([1, 7.5, 30]),
+        "timeout": rnd.choice([0.5, 2, 3.5, 0, 0.0]),  # 0 = non-blocking reads: falsy but legitimate
+        "reconnect_timeout": rnd.choice([1, 7.5, 30, 0]),
         "in_prefix": rnd.choice(["gw-out", "a/b", "0"]),
         "out_prefix": rnd.choice(["gw-in", "c/d", "1"]),
         "retain": rnd.choice([False, False, True]),
@@ -184,6 +184,10 @@ def construct_and_observe(cls_name, subset, seed_value, stats=None):
     import mysensors.mysensors as api
 
     vals = option_values(seed_value)
+    if "TCP" in cls_name and not vals["reconnect_timeout"]:
+        # for the TCP gateways the option doubles as the dial timeout: 0 would mean "give up at once" - not a
+        # sensible configuration, and nothing pins what happens then; 0 is kept for the serial gateways only
+        vals["reconnect_timeout"] = 1
     case = {"kind": "options", "cls": cls_name, "subset": list(subset), "seed": seed_value}
     fired = []
     with persist.Scratch() as tmp, persist.TimerPatch() as fake:
